@@ -27,13 +27,15 @@ import (
 // c19Src serves data like bytes.Reader.  mode: 'n' none; 'f' every call with
 // index >= k returns (0, injected); 'o' only call k; 's' only call k returns
 // about half of the bytes together with the injected error; 'S' the same for
-// every call with index >= k.
+// every call with index >= k; 'b' a bad sector: the 16 bytes from file offset k on cannot be read,
+// every call that asks for one of them returns the bytes in front of them and the injected error.
 type c19Src struct {
 	data  []byte
 	calls int
 	mode  byte
 	k     int
 	hits  int
+	hold  bool // no faults while set (a sector that goes bad in the middle of a session)
 
 	// where the injected faults struck (for attributing a violation to a
 	// former finding, all fixed upstream; the keys are regression detectors): inside the /Length validation of ReadStreamData (ROB-2),
@@ -115,12 +117,20 @@ func (f *c19Src) ReadAt(p []byte, off int64) (int, error) {
 		fail = idx >= f.k
 	case 'o', 's':
 		fail = idx == f.k
+	case 'b':
+		fail = off < int64(f.k)+16 && off+int64(len(good)) > int64(f.k)
+	}
+	if f.hold {
+		fail = false
 	}
 	if fail {
 		f.noteHit()
 		n := 0
 		if f.mode == 's' || f.mode == 'S' {
 			n = (len(good) + 1) / 2
+		}
+		if f.mode == 'b' {
+			n = int(max(0, int64(f.k)-off))
 		}
 		copy(p, good[:n])
 		return n, errInjected
